@@ -151,7 +151,9 @@ Judge(raised, out, eof, out0) ==
     IN
     /\ MustRaise(cfg.api, cfg.x) => raised
     /\ MustAccept(cfg.api, cfg.x) => ~raised
-    /\ IF raised THEN Rejected(P, P0, eof) ELSE Emitted(cfg.api, cfg.x, P, P0)
+    \* a rejected call that put nothing at all on the wire damaged nothing (C07 does not say what the
+    \* connection does afterwards: the WSGI container logs the error and leaves the connection open)
+    /\ IF raised THEN (out = <<>> \/ Rejected(P, P0, eof)) ELSE Emitted(cfg.api, cfg.x, P, P0)
 
 ----------------------------------------------------------------------------
 (* The specification's own writer: serializing the intended line of any input that need not be
